@@ -69,7 +69,14 @@ func c13Records(w *World, in *Interner, prefix string) string {
 	sort.Slice(rs, func(i, j int) bool { return rs[i].id < rs[j].id })
 	items := make([]string, len(rs))
 	for i, r := range rs {
-		items[i] = fmt.Sprintf("(%d, %d, %d, (%s)%%Z, (%s)%%Z)", r.id, r.addr, r.tok, r.initAmount, r.currentAmt)
+		// the record keeps the request's spelling of the amount ("0450", "+450"): compare values
+		norm := func(x string) string {
+			if z, ok := new(big.Int).SetString(x, 10); ok {
+				return z.String()
+			}
+			return x
+		}
+		items[i] = fmt.Sprintf("(%d, %d, %d, (%s)%%Z, (%s)%%Z)", r.id, r.addr, r.tok, norm(r.initAmount), norm(r.currentAmt))
 	}
 	return coqList(items)
 }
@@ -188,50 +195,107 @@ func c13Case(c *Ctx) error {
 				o.Amt = strconv.FormatInt(int64(rng.Intn(int(bal)+2)), 10)
 			}
 		}
-		req := &fpb.BalanceLockRequest{Id: "L" + strconv.Itoa(o.ID), Address: accs[o.Addr].AddrString(), Token: c13Toks[o.Tok], Amount: o.Amt, Reason: "r"}
-		data, _ := json.Marshal(req)
-		fn := map[string]string{"token": "lockTokenBalance", "allowed": "lockAllowedBalance"}[o.Fam]
-		if o.Unlock {
-			fn = map[string]string{"token": "unlockTokenBalance", "allowed": "unlockAllowedBalance"}[o.Fam]
-		}
-		msg := tokenRun(w, "tt", accs[o.Sender], &nonce, fn, string(data))
-		e := c13Err(msg)
-		amtZ, okAmt := new(big.Int).SetString(o.Amt, 10)
-		if !okAmt {
-			// not a number: the model sees it as a bad argument; encode as amount 0 and skip
-			// the case-specific amount (the error class must be EBadArg when it is reached)
-			amtZ = big.NewInt(0)
-		}
-		famT := map[string]string{"token": "FTok", "allowed": "FAllowed"}[o.Fam]
-		kind := "LLock"
-		if o.Unlock {
-			kind = "LUnlock"
-		}
-		if !okAmt {
-			// keep non-numeric amounts out of the model's op list: the request is observed only
-			// through its (required) rejection; it must leave the state unchanged
-			if e == "None" {
-				return fmt.Errorf("non-numeric amount %q accepted", o.Amt)
+		reqOf := func(o c13Op) (string, string) {
+			req := &fpb.BalanceLockRequest{Id: "L" + strconv.Itoa(o.ID), Address: accs[o.Addr].AddrString(), Token: c13Toks[o.Tok], Amount: o.Amt, Reason: "r"}
+			data, _ := json.Marshal(req)
+			fn := map[string]string{"token": "lockTokenBalance", "allowed": "lockAllowedBalance"}[o.Fam]
+			if o.Unlock {
+				fn = map[string]string{"token": "unlockTokenBalance", "allowed": "unlockAllowedBalance"}[o.Fam]
 			}
-			c.Count("nonnumeric_rejected")
+			return fn, string(data)
+		}
+		obsNow := func() string {
+			return fmt.Sprintf("%s %s %s", coqBals(w.Balances("tt", in)), c13Records(w, in, "32"), c13Records(w, in, "31"))
+		}
+		// what one request did: appended to the history with the observation after it
+		record := func(o c13Op, msg string, obs string) error {
+			e := c13Err(msg)
+			amtZ, okAmt := new(big.Int).SetString(o.Amt, 10)
+			if !okAmt {
+				// not a number: the model sees it as a bad argument; encode as amount 0 and skip
+				// the case-specific amount (the error class must be EBadArg when it is reached)
+				amtZ = big.NewInt(0)
+			}
+			famT := map[string]string{"token": "FTok", "allowed": "FAllowed"}[o.Fam]
+			kind := "LLock"
+			if o.Unlock {
+				kind = "LUnlock"
+			}
+			if !okAmt {
+				// keep non-numeric amounts out of the model's op list: the request is observed only
+				// through its (required) rejection; it must leave the state unchanged
+				if e == "None" {
+					return fmt.Errorf("non-numeric amount %q accepted", o.Amt)
+				}
+				c.Count("nonnumeric_rejected")
+				return nil
+			}
+			ops = append(ops, fmt.Sprintf("%s %s %d %d %d %d %s", kind, famT, o.Sender, o.ID, o.Addr, o.Tok, coqZ(amtZ)))
+			steps = append(steps, fmt.Sprintf("mkObs (%s) %s", e, obs))
+			jops = append(jops, map[string]interface{}{"op": o, "error": msg})
+			c.Count(kind + "_" + strings.SplitN(strings.TrimPrefix(e, "Some "), " ", 2)[0])
+			if e == "None" {
+				success++
+				if o.Unlock {
+					if l := known[o.ID]; l != nil {
+						l.cur -= amtZ.Int64()
+						if l.cur <= 0 {
+							delete(known, o.ID)
+						}
+					}
+				} else {
+					known[o.ID] = &lk{o.Fam, o.Addr, o.Tok, amtZ.Int64()}
+				}
+			}
+
+			return nil
+		}
+		// a spelling of the same number that is not the canonical one ("0450", "+450")
+		if z, ok := new(big.Int).SetString(o.Amt, 10); ok && z.Sign() >= 0 && !strings.HasPrefix(o.Amt, "-") && rng.Intn(5) == 0 {
+			o.Amt = []string{"0", "+", "00"}[rng.Intn(3)] + o.Amt
+			c.Count("noncanonical_amount")
+		}
+		if l := known[o.ID]; o.Unlock && l != nil && l.cur >= 2 && o.Sender == w.AdminAcc.N() && rng.Intn(4) == 0 {
+			// two unlocks of one lock in ONE executeTasks request (mostly: a part, then the rest). The state between
+			// them is not observable: it is taken from a run of the list cut after the first task, on a copy of the ledger.
+			a := 1 + rng.Int63n(l.cur-1)
+			o1, o2 := o, o
+			o1.Fam, o1.Addr, o1.Tok = l.fam, l.addr, l.tok
+			o2.Fam, o2.Addr, o2.Tok = l.fam, l.addr, l.tok
+			o1.Amt = strconv.FormatInt(a, 10)
+			o2.Amt = strconv.FormatInt(l.cur-a+int64([]int{0, 0, 0, 1, -1}[rng.Intn(5)]), 10)
+			var tasks []*fpb.Task
+			for _, x := range []c13Op{o1, o2} {
+				fn, data := reqOf(x)
+				nonce++
+				tasks = append(tasks, &fpb.Task{Id: w.Peer.NextTxID(), Method: fn, Args: w.SignedArgs("tt", fn, accs[x.Sender], strconv.FormatUint(nonce, 10), data)})
+			}
+			chn := w.Peer.Channels["tt"]
+			snap := stateSnapshot(chn)
+			w.ExecTasks("tt", w.Robot.Creator, tasks[:1])
+			mid := obsNow()
+			chn.State = map[string][]byte{}
+			for k, v := range snap {
+				chn.State[k] = []byte(v)
+			}
+			out := w.ExecTasks("tt", w.Robot.Creator, tasks)
+			m1, m2 := "TASKS FAILED: "+out.Res.Message, "TASKS FAILED: "+out.Res.Message
+			if out.Resp != nil && len(out.Resp.GetTxResponses()) == 2 {
+				m1, m2 = out.Resp.GetTxResponses()[0].GetError().GetError(), out.Resp.GetTxResponses()[1].GetError().GetError()
+			}
+			if err := record(o1, m1, mid); err != nil {
+				return err
+			}
+			if err := record(o2, m2, obsNow()); err != nil {
+				return err
+			}
+			c.Count("unlock_pair_in_one_request")
 			continue
 		}
-		ops = append(ops, fmt.Sprintf("%s %s %d %d %d %d %s", kind, famT, o.Sender, o.ID, o.Addr, o.Tok, coqZ(amtZ)))
-		steps = append(steps, fmt.Sprintf("mkObs (%s) %s %s %s", e, coqBals(w.Balances("tt", in)), c13Records(w, in, "32"), c13Records(w, in, "31")))
-		jops = append(jops, map[string]interface{}{"op": o, "error": msg})
-		c.Count(kind + "_" + strings.SplitN(strings.TrimPrefix(e, "Some "), " ", 2)[0])
-		if e == "None" {
-			success++
-			if o.Unlock {
-				if l := known[o.ID]; l != nil {
-					l.cur -= amtZ.Int64()
-					if l.cur <= 0 {
-						delete(known, o.ID)
-					}
-				}
-			} else {
-				known[o.ID] = &lk{o.Fam, o.Addr, o.Tok, amtZ.Int64()}
-			}
+		fn, data := reqOf(o)
+		msg := tokenRun(w, "tt", accs[o.Sender], &nonce, fn, data)
+		if err := record(o, msg, obsNow()); err != nil {
+			return err
 		}
 	}
 	term := fmt.Sprintf("mkCase %d %s %s %s", w.AdminAcc.N(), coqBals(init), coqList(ops), coqList(steps))
@@ -244,7 +308,7 @@ func c13Case(c *Ctx) error {
 
 func genC13(c *Ctx) error {
 	c.ShardSize = 12
-	c.Notes["rule"] = "each case: fresh chaincode, 3 addresses funded with token and allowed balances; 12-30 signed lock/unlock requests by the admin (sometimes by others) through real batches: new ids, duplicate ids, unknown ids, amounts 0, cur-1, cur, cur+1, balance, balance+1, negative and non-numeric, wrong family, missing token; 1 in 8 histories also unlock naming a foreign address (outside the property's quantifier; only correspondence is checked). Observed after every request: error class, all balances, all lock records. Non-trivial: >= 3 successful requests."
+	c.Notes["rule"] = "each case: fresh chaincode, 3 addresses funded with token and allowed balances; 12-30 signed lock/unlock requests by the admin (sometimes by others) through real batches: new ids, duplicate ids, unknown ids, amounts 0, cur-1, cur, cur+1, balance, balance+1, negative and non-numeric, amounts spelled with leading zeros or a plus sign, wrong family, missing token; two unlocks of one lock (a part, then the rest or one more / less) in ONE executeTasks request, the state between them taken from a run of the list cut after the first task on a copy of the ledger; 1 in 8 histories also unlock naming a foreign address (outside the property's quantifier; only correspondence is checked). Observed after every request: error class, all balances, all lock records. Non-trivial: >= 3 successful requests."
 	n := c.N(150, 3000)
 	for i := 0; i < n; i++ {
 		if err := c13Case(c); err != nil {
